@@ -1,4 +1,5 @@
 import Foundation.Basic.Store
+import Foundation.Basic.Sums
 /-!
 Model of the multi-asset swap (`core/bc_multiswap.go`, `core/multiswap/multiswap.go`,
 `core/cc_multiswap.go`). As the single swap, with a list of assets `(group, amount)` (groups may
@@ -36,6 +37,7 @@ structure S where
   answered  : String → Bool      -- ghost: the robot answered this id (it does so at most once)
   abandoned : String → Bool      -- ghost: the robot gave this id up and will never answer it
   doneB     : String → Bool      -- ghost: a destination completion succeeded
+  log       : List String        -- ghost: ids ever used by a begin or an answer (duplicate-free)
 
 def total (as : List Asset) : Int := (as.map (·.2)).sum
 
@@ -73,12 +75,12 @@ def step (s : S) : Step → Option S
     if (s.recA id).isSome ∨ as = [] then none
     else match debitAll s.srcA o as with
       | none => none
-      | some b => some { s with srcA := b, recA := upd s.recA id (some ⟨o, o, as, s.nowA + userSideTimeout⟩) }
+      | some b => some { s with srcA := b, recA := upd s.recA id (some ⟨o, o, as, s.nowA + userSideTimeout⟩), log := touch s.log id }
   | .answer id o as =>
     if as.any (·.2 < 0) ∨ (!s.direct ∧ s.givenB < total as) then none
     else some { s with recB := upd s.recB id (some ⟨"0000", o, as, s.nowB + robotSideTimeout⟩),
                        givenB := if s.direct then s.givenB else s.givenB - total as,
-                       answered := upd s.answered id true }
+                       answered := upd s.answered id true, log := touch s.log id }
   | .userDone id right =>
     match s.recB id with
     | some r =>
@@ -126,6 +128,6 @@ def exec (s : S) (st : Step) : S := (step s st).getD s
 
 def init (direct : Bool) (srcA : Bal) (givenB : Int) : S :=
   ⟨direct, fun _ => none, fun _ => none, srcA, fun _ _ => 0, 0, givenB, 1000, 1000,
-   fun _ => false, fun _ => false, fun _ => false⟩
+   fun _ => false, fun _ => false, fun _ => false, []⟩
 
 end Foundation.MultiSwap
